@@ -78,3 +78,24 @@ Example C11_shapes_nonvacuous :
   party_identifier_ok (bs "/123456") = true /\ party_identifier_ok (bs "SOSE/123-456-789") = true /\
   party_identifier_ok (bs "/*") = false /\ option_f_line_ok (bs "3/US/NEW YORK, NY 10000") = true.
 Proof. vm_compute. auto. Qed.
+
+(* the tag files: every tag's Validate is translated completely (no statement the translator could not read, so
+   each element check is one of the validators above, a presence test or a membership test in a table), and the
+   table the four financial-institution tags test their identification code against is the published list.
+   Stream l2-tags compares these programs with the implementation and - for the coded elements of
+   Spec.Faim.tag_code_lists - checks the implementation against the published list directly *)
+From Wire Require Import Model.GoV Theory.VerifyFacts.
+From WireGen Require Codes.
+
+Definition fi_id_codes_published : bool :=
+  match find (fun p => String.eqb (fst p) "financialInstitutionIDCodes") Codes.string_tables with
+  | Some (_, l) => forallb (fun e => let '(_, _, pub) := e in
+                                     forallb (fun c => mem_bytes c pub) l && forallb (fun c => mem_bytes c l) pub)
+                           Spec.Faim.tag_code_lists
+  | None => false
+  end.
+
+Theorem C11_tag_checks_are_the_validators_and_published_tables :
+  ob_tags_compile = true /\ fi_id_codes_published = true.
+Proof. split; [exact tags_compile|vm_compute; reflexivity]. Qed.
+Print Assumptions C11_tag_checks_are_the_validators_and_published_tables.
